@@ -149,6 +149,20 @@ pub fn gen(seed: u64, n: usize, tier: &str) -> Vec<Case> {
             ops.push(op_t("FAILSWEEP")); ops.push(op_t("DUMP"));
             cases.push(Case { id: format!("failat-{}", v), ops, outs: vec![] });
         }
+        for v in 0..4 {
+            let mut ops = vec![];
+            small_dataset(&mut r, &mut ops, false);
+            ops.push(op_t("BGSWEEP")); ops.push(op_t("DUMP"));
+            cases.push(Case { id: format!("bgsave-{}", v), ops, outs: vec![] });
+        }
+    }
+    // (2) saves racing with a writer on one key (violation search for the class value-ttl-tear)
+    {
+        let mut ops = vec![];
+        small_dataset(&mut r, &mut ops, false);
+        ops.push(opv("TEARSTRESS", vec![i(if thorough { 3000 } else { 400 })]));
+        ops.push(op_t("DUMP"));
+        cases.push(Case { id: "tear-0".into(), ops, outs: vec![] });
     }
     // every prefix and single-byte corruption of valid dumps written by the implementation / by the model
     let mut k = 0;
@@ -189,6 +203,19 @@ pub fn judge(c: &Case, outs: &[Vec<Tok>]) -> Vec<String> {
             b"FAILSWEEP" => {
                 if out.len() == 4 && (out[1] != i(1) || out[2] != i(1) || out[3] != i(1)) {
                     fails.push(format!("FAIL case={} op={} failing each of the {:?} write calls of a save: all reported failure {:?}, dump unchanged {:?}, later save ok {:?}", c.id, k, out[0], out[1], out[2], out[3]));
+                }
+            }
+            b"TEARSTRESS" => {
+                if op.len() >= 5 && tok_int(&op[3]) > 0 {
+                    fails.push(format!("FAIL case={} op={} class=value-ttl-tear {} of {} snapshots taken while a client flipped the key between (old, no TTL) and (new, TTL) hold a (value, TTL) pair the key never had", c.id, k, tok_int(&op[3]), tok_int(&op[4])));
+                }
+                if op.len() >= 6 && tok_int(&op[5]) > 0 {
+                    fails.push(format!("FAIL case={} op={} class=zset-len-tear {} snapshots taken while a client added/removed a sorted-set member do not load as written (member count written before the items are read)", c.id, k, tok_int(&op[5])));
+                }
+            }
+            b"BGSWEEP" => {
+                if out.len() == 7 && out[1..].iter().any(|x| x != &i(1)) {
+                    fails.push(format!("FAIL case={} op={} background saves with an injected write failure: accepted {:?}, flag cleared {:?}, dump unchanged {:?}, later bgsave accepted {:?}, newer data published {:?}, save/bgsave mixes {:?}", c.id, k, out[1], out[2], out[3], out[4], out[5], out[6]));
                 }
             }
             b"BLOCKSAVE" => {
